@@ -58,11 +58,12 @@ def strategy(tier):
             min_size=2, max_size=12),
         "choices": st.lists(st.integers(0, 39), min_size=4, max_size=40),
         "mode": st.sampled_from(["scan", "init", "init", "twice",
-                                 "scan-then-init", "both"]),
+                                 "scan-then-init", "both", "gentle"]),
         "latency": st.lists(st.sampled_from([0, 0, 1, 2, 3]), min_size=1,
                             max_size=6),
         "serials": st.lists(st.integers(0, 5), min_size=12, max_size=12),
         # the network stack refuses to send this frame (ENOBUFS)
+        "dup_pre": st.sampled_from([False, False, False, True]),
         "send_error_at": st.none() | st.none() | st.none()
         | st.integers(0, 30),
     })
@@ -86,12 +87,15 @@ def run_case(case):
     pre = list(case["terms"])
     # make pre-assigned addresses distinct
     seen = set()
+    dup_pre = bool(case.get("dup_pre"))
     for i, a in enumerate(pre):
-        while a and a in seen:
+        # (leftover addresses may coincide, e.g. after hardware was swapped)
+        while a and a in seen and not dup_pre:
             a += 1
         pre[i] = a
         if a:
             seen.add(a)
+    dup_pre = dup_pre and len([a for a in pre if a]) != len(seen)
     n = len(pre)
     hi = LO + max(case["width"], 3 * n + len(seen) + 5)
     world = {"terms": [], "writes": []}
@@ -150,6 +154,10 @@ def run_case(case):
             for i in range(n):
                 t = Terminal(ec)
                 jobs.append(t.initialize(relative=-i))
+        if case["mode"] == "gentle":
+            # the entry point for terminals shared with other users
+            for i in range(n):
+                jobs.append(Terminal(ec).gentle_initialize(relative=-i))
         res = await asyncio.wait_for(
             asyncio.gather(*jobs, return_exceptions=True), 120)
         out["results"] = res
@@ -165,7 +173,8 @@ def run_case(case):
         ethercat.randint = real_randint
 
     classes = [f"n={n}", f"mode={case['mode']}"] + (
-        ["send-error"] if case.get("send_error_at") is not None else []) + [
+        ["send-error"] if case.get("send_error_at") is not None else []) + (
+        ["coinciding-leftovers"] if dup_pre else []) + [
                f"pre={sum(1 for a in pre if a)}"]
 
     def fail(what):
@@ -200,6 +209,10 @@ def run_case(case):
         return fail(f"a terminal was left without address: {final}")
     if both:
         final = [a for a in final if a]
+    if dup_pre and (case["mode"] != "init" or both):
+        # a scan keeps addresses that are already set, also coinciding ones:
+        # only what the master hands out is judged
+        final = []
     if len(set(final)) != len(final):
         return fail(f"final station addresses are not distinct: {final}")
     preset = {a for a in pre if a}
